@@ -28,6 +28,7 @@ import NurbsVerif.Lemmas.RatTangentReal
 import NurbsVerif.Lemmas.RatTangentWitness
 import NurbsVerif.Lemmas.SpanRDers
 import NurbsVerif.Lemmas.SpanRDersA38
+import NurbsVerif.Lemmas.SpanRTangent
 
 /-!
 # C02  Derivatives returned are the true derivatives of the shape  (statements so far)
@@ -1251,6 +1252,64 @@ theorem a38_as_coded_repaired_witness_F01b :
     findSpanLinearR 2 Uu 5 4 = 3 ∧
     surfaceDersA38R 2 1 Uu Uv 5 2 P 4 (1/2) 1 = surfaceDersR 2 1 Uu Uv 5 2 P 4 (1/2) 1 true ∧
     ((surfaceDersA38R 2 1 Uu Uv 5 2 P 4 (1/2) 1).getD 1 []).getD 0 [] ≠ [0, 0] := by
+  decide +kernel
+
+/-- **`operations.tangent(curve, u, normalize=False)` through the repaired search** (op `tancr`: `tangentCurve` of
+    `curveDersA32R … 1`), non-rational curve, closed domain of EVERY sorted knot vector with `U_p < U_n` (last span possibly
+    empty): (curve point, TRUE first derivative) of the span polynomial of the non-empty span found – at `u = U_n` the
+    left-hand derivative (`curve_derivatives_repaired_at_domain_end`).  Rational curves: entries 0, 1 of the table of
+    `rational_curve_derivatives_repaired_leibniz`. -/
+theorem tangent_curve_repaired_on_domain (p d : ℕ) (U : ℕ → F) (P : List (List F)) (hU : DomOk p U P.length)
+    (hP : NetOk d P) (u : F) (h1 : U p ≤ u) (h2 : u ≤ U P.length) (j : ℕ) :
+    (tangentCurve (curveDersA32R p U P u 1)).1.getD j 0
+      = eval u (spanPoly p U P (findSpanLinearR p U P.length u) j) ∧
+    (tangentCurve (curveDersA32R p U P u 1)).2.getD j 0
+      = eval u (derivative (spanPoly p U P (findSpanLinearR p U P.length u) j)) :=
+  tangentCurveR_true p d U P hU hP u h1 h2 j
+
+/-- **`operations.tangent(surface, (u, v), normalize=False)` through the repaired search** (op `tansr`), non-rational
+    surface, closed domain, per direction `DomOk`: (surface point, `∂S/∂u`, `∂S/∂v`) of the bivariate span polynomial of
+    the non-empty span pair found.  Rational: entries of `rational_surface_derivatives_repaired_on_domain`. -/
+theorem tangent_surface_repaired_on_domain (pu pv d : ℕ) (Uu Uv : ℕ → F) (su sv : ℕ) (P : List (List F))
+    (hUu : DomOk pu Uu su) (hUv : DomOk pv Uv sv) (hlen : P.length = su * sv) (hP : NetOk d P) (u v : F)
+    (hu1 : Uu pu ≤ u) (hu2 : u ≤ Uu su) (hv1 : Uv pv ≤ v) (hv2 : v ≤ Uv sv) (j : ℕ) :
+    (tangentSurface (surfaceDersA36R pu pv Uu Uv su sv P u v 1)).1.getD j 0
+      = (surfSpanPoly pu pv Uu Uv sv P (findSpanLinearR pu Uu su u) (findSpanLinearR pv Uv sv v) j).evalEval u v ∧
+    (tangentSurface (surfaceDersA36R pu pv Uu Uv su sv P u v 1)).2.1.getD j 0
+      = (pderivU (surfSpanPoly pu pv Uu Uv sv P (findSpanLinearR pu Uu su u)
+          (findSpanLinearR pv Uv sv v) j)).evalEval u v ∧
+    (tangentSurface (surfaceDersA36R pu pv Uu Uv su sv P u v 1)).2.2.getD j 0
+      = (pderivV (surfSpanPoly pu pv Uu Uv sv P (findSpanLinearR pu Uu su u)
+          (findSpanLinearR pv Uv sv v) j)).evalEval u v :=
+  tangentSurfaceR_true pu pv d Uu Uv su sv P hUu hUv hlen hP u v hu1 hu2 hv1 hv2 j
+
+/-- **`operations.normal(surface, (u, v), normalize=False)` through the repaired search** (op `nrmsr`), non-rational 3-D
+    surface, closed domain, per direction `DomOk`: the surface point and the cross product of the TRUE first partials of
+    the span pair found, orthogonal to both. -/
+theorem normal_surface_repaired_on_domain (pu pv : ℕ) (Uu Uv : ℕ → F) (su sv : ℕ) (P : List (List F))
+    (hUu : DomOk pu Uu su) (hUv : DomOk pv Uv sv) (hlen : P.length = su * sv) (hP : NetOk 3 P) (u v : F)
+    (hu1 : Uu pu ≤ u) (hu2 : u ≤ Uu su) (hv1 : Uv pv ≤ v) (hv2 : v ≤ Uv sv)
+    (Su Sv : ℕ → F)
+    (hSu : ∀ c, Su c = (pderivU (surfSpanPoly pu pv Uu Uv sv P (findSpanLinearR pu Uu su u)
+      (findSpanLinearR pv Uv sv v) c)).evalEval u v)
+    (hSv : ∀ c, Sv c = (pderivV (surfSpanPoly pu pv Uu Uv sv P (findSpanLinearR pu Uu su u)
+      (findSpanLinearR pv Uv sv v) c)).evalEval u v) :
+    ∃ pt n, normalSurface (surfaceDersA36R pu pv Uu Uv su sv P u v 1) = some (pt, n) ∧
+      (∀ c, pt.getD c 0 = (surfSpanPoly pu pv Uu Uv sv P (findSpanLinearR pu Uu su u)
+        (findSpanLinearR pv Uv sv v) c).evalEval u v) ∧
+      n = [Su 1 * Sv 2 - Su 2 * Sv 1, Su 2 * Sv 0 - Su 0 * Sv 2, Su 0 * Sv 1 - Su 1 * Sv 0] ∧
+      n.getD 0 0 * Su 0 + n.getD 1 0 * Su 1 + n.getD 2 0 * Su 2 = 0 ∧
+      n.getD 0 0 * Sv 0 + n.getD 1 0 * Sv 1 + n.getD 2 0 * Sv 2 = 0 :=
+  normalSurfaceR_true pu pv Uu Uv su sv P hUu hUv hlen hP u v hu1 hu2 hv1 hv2 Su Sv hSu hSv
+
+/-- non-vacuity / closed witness (inputs of `curve_derivatives_repaired_witness_F01b` (1)): degree 2,
+    `U = [0,0,1,2,4,4,5,5]`, `u = 4 = U_5`: the tangent on the span the repaired search finds is (point `(3,1)`, first
+    derivative `(1,1)` of the piece on `[2,4]`); on the empty span 4 of the search without step back it is all zeros. -/
+theorem tangent_curve_repaired_witness_F01b :
+    let U := fnOf ([0,0,1,2,4,4,5,5] : List ℚ)
+    let P : List (List ℚ) := [[0,0],[1,1],[2,0],[3,1],[4,0]]
+    tangentCurve (curveDersA32R 2 U P 4 1) = ([3,1], [1,1]) ∧
+    tangentCurve (curveDersA32 2 U P (findSpanLinear 2 U 5 4) 4 1) = ([0,0], [0,0]) := by
   decide +kernel
 
 /-- **With a non-empty last span the R tables ARE the tables of the theorems above** (`KnotsOk` per direction, every
